@@ -40,7 +40,7 @@ EvRecv(b) == [a |-> "Recv", b |-> b, rx |-> RxEval(b.dest), tx |-> TxEval(b.dest
 EvBoundary(n, nseen, nidle) == [a |-> "Boundary", n |-> n, seen |-> nseen, idle |-> nidle]
 EvConsume(b) == [a |-> "Consume", app |-> "probe", base |-> b.base, dest |-> b.dest, paylen |-> b.paylen, pay |-> b.pay,
                  isfrag |-> b.isfrag, btypes |-> <<>>, sec_left |-> 0]
-EvClOut(b) == [a |-> "ClOut", b |-> b, mtu |-> -1, agedelta |-> 0, fragok |-> TRUE]
+EvClOut(b) == [a |-> "ClOut", b |-> b, mtu |-> -1, agedelta |-> 0, fragok |-> TRUE, fx |-> -1]
 
 \* create_report: one report with every requested action recorded so far
 ReportFor(b, acts, reason) ==
